@@ -477,6 +477,15 @@ func transitionDay(tz *time.Location, d day) bool {
 	return false
 }
 
+func otherDateFormat(f envs.DateFormat) envs.DateFormat {
+	for i, x := range dateFormats {
+		if x == f {
+			return dateFormats[(i+1)%len(dateFormats)]
+		}
+	}
+	return dateFormats[0]
+}
+
 func localDay(tz *time.Location, t time.Time) day {
 	y, m, d := t.In(tz).Date()
 	return day{y, int(m), d}
@@ -1607,6 +1616,27 @@ func (w *world) audit(res *hx.Result, spec *worldSpec, ci int, cs *contactSpec, 
 			if anyPanic {
 				res.Fail(fmt.Sprintf("panic:eval:comparison-on-%s-%s", p.PT, p.VT), fi(p, "=", v.text, ""), fmt.Sprintf("%v", got))
 				continue
+			}
+			// a PARSED query carries the value the text named when it was validated: evaluating it in an environment that
+			// differs only in its date format must give the answers it gives in the environment it was parsed in
+			if p.VT == "datetime" {
+				other := envs.NewBuilder().WithTimezone(w.tz).WithDateFormat(otherDateFormat(envs.DateFormat(spec.DateFormat))).Build()
+				for _, op := range []string{"<", "=", ">"} {
+					n := &qnode{PT: p.PT, Key: p.Key, Op: op, Value: v.text}
+					pq, err := contactql.ParseQuery(w.env, contactql.Stringify(n.build()), w.resolver)
+					if err != nil {
+						continue
+					}
+					res.OracleChecks++
+					here, _ := evalReal(w.env, pq, c)
+					there, _ := evalReal(other, pq, c)
+					if here != there {
+						res.Fail("date-comparison:evaluated-in-other-date-format", fi(p, op, v.text, "parsed with "+spec.DateFormat+", evaluated with "+string(other.DateFormat())),
+							fmt.Sprintf("the query parsed in an environment with date format %s evaluates to %s there and to %s in an environment that differs only in its date format (%s)",
+								spec.DateFormat, here, there, other.DateFormat()))
+						break
+					}
+				}
 			}
 			lt, eq, gt := got["<"] == "true", got["="] == "true", got[">"] == "true"
 			le, ge, ne := got["<="] == "true", got[">="] == "true", got["!="] == "true"
